@@ -214,6 +214,140 @@ def service_unload_steps():
     return steps
 
 
+# ------------------------------------------------------------------------------------------ public coroutine API
+SEND_PRIMITIVE = re.compile(r"(^|\.)endpoint\.send$|crypto_endpoint\.send_cell$|transport(_ipv[46])?\.sendto$")
+NOT_API = {"unload", "discover_lan_addresses", "shutdown_task_manager", "wait_for_tasks"}
+
+
+def _task_code():
+    from ipv8.taskmanager import task
+
+    async def dummy(self):
+        pass
+    return task(dummy).__code__
+
+
+def _innermost(f):
+    while hasattr(f, "__wrapped__"):
+        f = f.__wrapped__
+    return f
+
+
+def public_coroutines():
+    """[(class name, method name, routed)] for every public coroutine method of every shipped overlay class.
+
+    routed = every path from the method to a send primitive (endpoint.send, crypto_endpoint.send_cell, transport.sendto)
+    through calls of the overlay's own methods passes through a method decorated with @task, i.e. each sending step
+    runs as a task of the overlay's task manager (and is refused / cancelled once the overlay is unloaded)."""
+    from ipv8.messaging.interfaces.endpoint import EndpointListener
+    from ipv8.taskmanager import TaskManager
+    tcode = _task_code()
+    rows = []
+    for cls, _ in shipped_overlay_classes():
+        mro = [k for k in cls.__mro__ if k not in (TaskManager, EndpointListener, object) and k.__module__.startswith("ipv8")]
+
+        def lookup(name, start=0):
+            for j in range(start, len(mro)):
+                if name in mro[j].__dict__:
+                    return j, mro[j].__dict__[name]
+            return None, None
+
+        def is_task(f):
+            return getattr(f, "__code__", None) is tcode
+
+        cache = {}
+
+        def exempt_calls(tree):
+            """calls of a coroutine body that are evaluated before its first suspension point (they happen when the
+            application calls the method, not later): source order up to and including the operand of the first
+            `await`, unless inside a loop, a comprehension or a nested function"""
+            fn = tree.body[0]
+            awaits = sorted((n for n in ast.walk(fn) if isinstance(n, ast.Await)), key=lambda n: (n.lineno, n.col_offset))
+            if not awaits:
+                return set()
+            first = awaits[0]
+            looped = set()
+            for n in ast.walk(fn):
+                if isinstance(n, (ast.For, ast.AsyncFor, ast.While, ast.ListComp, ast.SetComp, ast.DictComp, ast.GeneratorExp,
+                                  ast.Lambda, ast.FunctionDef, ast.AsyncFunctionDef)) and n is not fn:
+                    for m in ast.walk(n):
+                        looped.add(id(m))
+            if id(first) in looped:
+                return set()
+            operand = {id(m) for m in ast.walk(first.value)}
+            out = set()
+            for n in ast.walk(fn):
+                if isinstance(n, ast.Call) and id(n) not in looped and \
+                        ((n.lineno, n.col_offset) < (first.lineno, first.col_offset) or id(n) in operand):
+                    out.add(id(n))
+            return out
+
+        def reaches_send(name, start, stack, top=False):
+            j, f = lookup(name, start)
+            if f is None or isinstance(f, property) or not callable(getattr(f, "__func__", f)):
+                return False
+            f = getattr(f, "__func__", f)
+            if is_task(f):
+                return False
+            key = (j, name, top)
+            if key in cache:
+                return cache[key]
+            if key in stack:
+                return False
+            inner = _innermost(f)
+            try:
+                tree = ast.parse(textwrap.dedent(inspect.getsource(inner)))
+            except (OSError, TypeError) as e:
+                raise Unsupported("no source for %s.%s: %s" % (mro[j].__name__, name, e)) from e
+            res = False
+            skip = exempt_calls(tree) if top and inspect.iscoroutinefunction(inner) else set()
+            for n in ast.walk(tree):
+                if not isinstance(n, ast.Call):
+                    continue
+                early = id(n) in skip
+                if early:
+                    # a synchronous callee has run to completion before the first suspension; a coroutine callee
+                    # (operand of the first await) runs next: only ITS part before its own first suspension is early
+                    if isinstance(n.func, ast.Attribute) and isinstance(n.func.value, ast.Name) and n.func.value.id == "self":
+                        _, g = lookup(n.func.attr)
+                        g = getattr(g, "__func__", g)
+                        if g is not None and not is_task(g) and inspect.iscoroutinefunction(_innermost(g)) \
+                                and reaches_send(n.func.attr, 0, stack | {key}, top=True):
+                            res = True
+                            break
+                    continue
+                ftxt = ast.unparse(n.func)
+                if SEND_PRIMITIVE.search(ftxt):
+                    res = True
+                    break
+                if isinstance(n.func, ast.Attribute):
+                    v = n.func.value
+                    if isinstance(v, ast.Name) and v.id == "self":
+                        if reaches_send(n.func.attr, 0, stack | {key}):
+                            res = True
+                            break
+                    elif isinstance(v, ast.Call) and ast.unparse(v) == "super()":
+                        if reaches_send(n.func.attr, j + 1, stack | {key}):
+                            res = True
+                            break
+            cache[key] = res
+            return res
+
+        names = []
+        for k in mro:
+            for name, f in k.__dict__.items():
+                if name.startswith("_") or name.startswith("on_") or name in NOT_API or name in names:
+                    continue
+                f = getattr(f, "__func__", f)
+                if callable(f) and (inspect.iscoroutinefunction(f) or is_task(f)):
+                    names.append(name)
+        for name in sorted(names):
+            j, f = lookup(name)
+            f = getattr(f, "__func__", f)
+            rows.append((cls.__name__, name, True if is_task(f) else not reaches_send(name, 0, frozenset(), top=True)))
+    return rows
+
+
 def b(x):
     return "true" if x else "false"
 
@@ -222,6 +356,7 @@ def generate():
     api = wrapper_api()
     rows = describe_classes()
     ssteps = service_unload_steps()
+    pubs = public_coroutines()
     t1 = ["(* GENERATED by tools/tr/tr_lifecycle.py from ipv8/messaging/anonymization/endpoint.py and",
           "   ipv8/messaging/interfaces/statistics_endpoint.py - do not edit *)",
           "From Coq Require Import Bool.", "From IPV8V Require Import model.M11_listeners.", "",
@@ -235,7 +370,12 @@ def generate():
           "Definition unload_table : list (string * cls * list ustep) :=",
           "  [" + ";\n   ".join('("%s", mkCls %s %s %s, [%s])' % (n, b(c), b(k), b(s), "; ".join(st)) for n, c, k, s, st in rows) + "].",
           "", "(* IPv8.unload_overlay (ipv8_service.py), statement by statement *)",
-          "Definition service_unload_steps : list sstep := [%s]." % "; ".join(ssteps)]
+          "Definition service_unload_steps : list sstep := [%s]." % "; ".join(ssteps),
+          "", "(* every public coroutine method (an application awaits it in its OWN task: unload() cannot cancel it), and whether",
+          "   each of its sending steps after its first suspension runs as a @task of the overlay's task manager *)",
+          "Definition public_coroutines : list (string * string * bool) :=",
+          "  [" + ";\n   ".join('("%s", "%s", %s)' % (c, m, b(r)) for c, m, r in pubs) + "]."]
+    generate.public_coroutines = pubs
     return "\n".join(t1) + "\n", "\n".join(t2) + "\n", api, rows
 
 
